@@ -144,6 +144,22 @@ func main() {
 			}
 			goMessages("", f.MessageType, &byPkg[ip].Messages)
 		}
+		if k%2 == 1 && len(order) > 1 {
+			// every other set is generated with ONE PLUGIN INVOCATION PER GO
+			// PACKAGE (how per-directory builds call the plugin): code generated
+			// for a package must not depend on what is generated along with it
+			for pi, ip := range order {
+				var sub []string
+				for _, f := range set {
+					if strings.SplitN(f.GetOptions().GetGoPackage(), ";", 2)[0] == ip {
+						sub = append(sub, f.GetName())
+					}
+				}
+				write(fmt.Sprintf("rnd%dp%d", k, pi), set, sub, "features=protoc+fast", "")
+				index[len(index)-1].Packages = append(index[len(index)-1].Packages, *byPkg[ip])
+			}
+			continue
+		}
 		write(fmt.Sprintf("rnd%d", k), set, gen, "features=protoc+fast", "")
 		for _, ip := range order {
 			index[len(index)-1].Packages = append(index[len(index)-1].Packages, *byPkg[ip])
